@@ -1228,8 +1228,11 @@ static sexp analyze (sexp ctx, sexp object, int depth, int defok) {
   } else if (sexp_nullp(x)) {
     res = sexp_compile_error(ctx, "empty application in source", x);
   } else {
-    if (sexp_pointerp(x)) {    /* accept vectors and other literals directly, */
-      sexp_immutablep(x) = 1;  /* but they must be immutable */
+    if (sexp_pointerp(x) && !sexp_immutablep(x)) {
+      /* accept vectors and other literals directly, but they must be
+         immutable (and need stripping only once, however often code
+         sharing or containing them is analyzed) */
+      sexp_immutablep(x) = 1;
       x = sexp_strip_synclos(ctx , NULL, 1, x);
     }
     res = x;
